@@ -914,6 +914,15 @@ def check_C05(ctx):
     # every rule pattern (bare and under a parent): their derivatives exercise every rule on derivative shapes
     pats = gen.rule_patterns(rng, [2, 3], per_pattern=sizes(tier, 1, 3))
     exprs += [p_ if rng.random() < 0.5 else gen.in_context(rng, p_, [2, 3]) for p_ in pats]
+    # operands that are almost the same: one n-ary argument list is a prefix of the other, or they differ in the last
+    # place only (a cancellation rule that compares operands too loosely fires on them)
+    for _ in range(sizes(tier, 30, 400)):
+        L = [gen.rexpr(rng, rng.randint(1, 3), [2, 3], p_const=0.2) for _ in range(rng.randint(1, 3))]
+        t = gen.rexpr(rng, rng.randint(1, 4), [2, 3], p_const=0.1)
+        hd = rng.choice(['Add', 'Mul'])
+        a_, c_ = (hd, list(L)), (hd, list(L) + [t])
+        exprs += [rng.choice([('Minus', a_, c_), ('Minus', c_, a_), ('Divide', a_, c_), ('Divide', c_, a_),
+                              ('Minus', ('Sin', a_), ('Sin', c_)), ('Add', [a_, ('Neg', c_)]), ('Mul', [c_, ('Recip', a_)])])]
     w = ('V', 4)
     exprs += [('Mul', [('Neg', ('V', 2)), ('Neg', ('V', 3)), ('Neg', ('Sin', ('V', 2))), w]),
               ('Mul', [('Neg', ('V', 2)), ('Neg', ('V', 3)), ('Neg', w), ('Neg', ('Cos', w)), ('Neg', ('C', 2))]),
